@@ -106,7 +106,10 @@ def r_C15eval(root):
         me, base = objmodel.new_metamodel(root)
         base = dict(base); base["__classdefs__"] = cds; base["abspath"] = pyeval.PyFn(lambda p: p); base["__keep__"] = ("abspath",)
         old1 = HS({".kind": "model", "._tx_filename": "/m/old1.mdl"}); old2 = HS({".kind": "model", "._tx_filename": "/m/old2.mdl"})
-        new1 = HS({".kind": "model", "._tx_filename": "/m/main.mdl"}); new2 = HS({".kind": "model", "._tx_filename": "/m/imported.mdl"})
+        plog = []
+        def parser_(tag): return HS({".kind": "parser", ".tag": tag, "._restore_user_attr_methods": pyeval.PyFn(lambda: plog.append(("restore", tag))), "._release_user_obj_attrs": pyeval.PyFn(lambda: plog.append(("release", tag)))})
+        # the main model has finished its construction; the imported one is still under construction (its parser holds the user classes instrumented)
+        new1 = HS({".kind": "model", "._tx_filename": "/m/main.mdl", "._tx_parser": parser_("main")}); new2 = HS({".kind": "model", "._tx_filename": "/m/imported.mdl", "._tx_parser": parser_("imported"), "._tx_reference_resolver": None})
         repo = None
         if with_repo:
             env0 = {"__classdefs__": cds, "__functions__": fns_s, "abspath": pyeval.PyFn(lambda p: p)}
@@ -122,8 +125,12 @@ def r_C15eval(root):
             ran.append(model)
             if fail: raise pyeval.Raised("ValueError")
         me["._model_processors"] = [pyeval.PyFn(proc)]
-        k, v = objmodel.call_method(root, me, base, "_call_model_processors", new1, cached)
+        mt = load(root, "textx/model.py")
+        for f_ in mt.body:          # the clean-up helper of model.py the handler may call
+            if isinstance(f_, ast.FunctionDef) and f_.name in ("_abandon_user_objects",): base.setdefault("__functions__", {}); base["__functions__"] = dict(base["__functions__"], **{f_.name: f_})
+        k, v = objmodel.call_method(root, me, base, "_call_model_processors", new2 if fail == "imported" else new1, cached)
         left = dict(repo[".all_models"][".filename_to_model"]) if with_repo else None
+        scenario.plog = plog
         return (k if k == "ret" else "raise " + v.cls, left, (old1, old2, new1, new2), ran)
     W = "TextXMetaModel._call_model_processors"
     def rep(what, ok, msg):
@@ -136,7 +143,16 @@ def r_C15eval(root):
     rep("a failing model processor: the error propagates", k == "raise ValueError" and ran == [new1], "a model processor raising ValueError: _call_model_processors %s" % k)
     rep("... the models added by this load are removed", not any(m_ is new1 or m_ is new2 for m_ in left.values()), "after a model processor failed the global repository still holds %s of this load: the main model and every model it imported must not stay cached (the next load would reuse half-processed models)" % [f for f, m_ in left.items() if m_ is new1 or m_ is new2])
     rep("... the models cached before stay", left.get("/m/old1.mdl") is old1 and left.get("/m/old2.mdl") is old2, "after a model processor failed the models cached before this load are %s: they must stay cached (same objects), a later load of those files would otherwise create second instances" % ("partly gone: " + str(sorted(left)) if left else "all gone"))
+    # a model processor fails for the model loaded on behalf of another one: it leaves the repository, so nobody else can abandon it
+    k, left, ms, ran = scenario("imported")
+    plog = scenario.plog
+    okp = k == "raise ValueError" and [e for e in plog if e[1] == "imported"] == [("restore", "imported"), ("release", "imported")]
+    inst += 1; ob("C15", "C15.m", MMF, W, "a model removed from the repository while under construction has its user classes restored", okp)
+    if not okp: out.append(Finding("C15", "C15.m", MMF, W, "models removed from the repository by the failure handler", "a model processor fails for a model that is loaded on behalf of another model (still under construction): _call_model_processors %s and removes it from the shared repository, with the clean-up calls %s on its parser; documented: the user-class instrumentation of that parser is restored and the collected attributes released (the enclosing load's clean-up finds its models through the repository and can no longer reach this one)" % (k, [e[0] for e in plog if e[1] == "imported"]), witness="global_repository=True, classes=[...], importURI, a model processor raising for the imported file"))
     k, left, ms, ran = scenario(False)
+    okn = not scenario.plog
+    inst += 1; ob("C15", "C15.m", MMF, W, "no failure: no parser is touched", okn)
+    if not okn: out.append(Finding("C15", "C15.m", MMF, W, "successful model processors", "with succeeding model processors the parsers of the loaded models are told to %s: the instrumentation of a load that is still running would be undone" % scenario.plog))
     rep("no failure: nothing is removed", k == "ret" and len(left) == 4 and len(ran) == 1, "with a succeeding model processor _call_model_processors %s and the repository holds %d of 4 models" % (k, len(left)))
     k, left, ms, ran = scenario(True, with_repo=False)
     rep("no global repository: the error just propagates", k == "raise ValueError", "without a global repository a failing model processor gives %s" % k)
